@@ -371,6 +371,9 @@ def normalize(scn, raw):
             if e["got"] == "raise" and not started and ctxf in ("asyncio", "trio") and ctxf == call.get("flavour"):
                 # refused: a coroutine payload asked its own flavour's loop for a blocking execute
                 out.append({"e": "ExecRefused", "x": "x%d" % e["call"]})
+            elif e["got"] == "raise" and started and not any(x["e"] == "x.end" and x["call"] == e["call"] for x in ev[:i]):
+                # the payload was running and has not ended: the runtime went down under it
+                out.append({"e": "ExecAborted", "x": "x%d" % e["call"], "exc": str(e.get("exc", ""))})
             else:
                 out.append({"e": "ExecRet", "x": "x%d" % e["call"], "same": bool(e["same"]), "got": e["got"], "exc": str(e.get("exc", "")), "flavour": str(call.get("flavour", ""))})
         elif n == "quiescent":
